@@ -6,7 +6,7 @@ import (
 	"git.sr.ht/~rockorager/vaxis/zzverif"
 )
 
-var verifTextSamples = []string{"", "a", "abc", "abcde", "ab\ncd", "a世b", "ab世cd", "世世世", "éa", "a\tb", "x\n\ny", "ab cd ef"}
+var verifTextSamples = []string{"", "a", "abc", "abcde", "ab\ncd", "a世b", "ab世cd", "世世世", "éa", "a\tb", "x\n\ny", "ab cd ef", "((世界", "世。。", "a(世"}
 
 type verifPlaced struct {
 	g        string
